@@ -1,7 +1,694 @@
 package main
 
-// Witness search / replay on the real code (attaches a concrete failing input to a report).
+// Witness search / replay on the real code.
+//
+// A generic reflect-based driver (driver_tmpl.go) is injected into the package under test with
+// `go test -overlay`; it calls the REAL function on concrete inputs (those of the solver's
+// model where they are small enough, plus seeded random / boundary inputs) and dumps inputs,
+// outputs and post-state. govc then evaluates the function's own contract on those concrete
+// values with the same evaluator that produced the VCs (all terms are constants, so the
+// clauses fold to true/false). A record whose requires fold to true and whose ensures fold to
+// false, that panics, or that changes an argument under "assigns nothing" is a confirmed
+// failing input. This only attaches an input to a report; the deciding step is the obligation.
+
+import (
+	"bufio"
+	"encoding/json"
+	"fmt"
+	"go/types"
+	"math/big"
+	"math/rand"
+	"os"
+	"os/exec"
+	"path/filepath"
+	"sort"
+	"strings"
+
+	"golang.org/x/tools/go/ssa"
+)
+
+var theWorld *World
+
+type concreteBuilder struct {
+	st      *State
+	nextReg int64
+}
+
+func (cb *concreteBuilder) newReg() *Term {
+	cb.nextReg++
+	return BVInt(cb.nextReg, 32)
+}
+
+func jsonInt(j interface{}) (*big.Int, bool) {
+	s, ok := j.(string)
+	if !ok {
+		return nil, false
+	}
+	v, ok := new(big.Int).SetString(s, 10)
+	return v, ok
+}
+
+// build converts a dumped JSON value of type ty into a program Value, writing heap contents.
+func (cb *concreteBuilder) build(ty *STy, j interface{}, reuse Value) (Value, bool) {
+	switch ty.K {
+	case TInt:
+		v, ok := jsonInt(j)
+		if !ok {
+			return nil, false
+		}
+		return VScalar{BVConst(v, ty.W), ty}, true
+	case TBool:
+		b, ok := j.(bool)
+		return VScalar{BoolConst(b), ty}, ok
+	case TSlice:
+		m, ok := j.(map[string]interface{})
+		if !ok {
+			return nil, false
+		}
+		if _, huge := m["huge"]; huge {
+			return nil, false
+		}
+		var elems []interface{}
+		if ty.IsStr {
+			elems, _ = m["str"].([]interface{})
+		} else {
+			elems, _ = m["slice"].([]interface{})
+		}
+		n := int64(len(elems))
+		cp := n
+		if c, ok := m["cap"].(float64); ok {
+			cp = int64(c)
+		}
+		var reg *Term
+		if rs, ok := reuse.(VSlice); ok {
+			reg = rs.Reg
+		} else {
+			reg = cb.newReg()
+		}
+		e := ty.Elem
+		// zero the region, then store elements
+		for _, key := range elemHeapKeys(e) {
+			srt := compSort(key, e)
+			h, ok := cb.st.heaps[key]
+			if !ok {
+				h = ConstArrOfArr(srt)
+			}
+			var z *Term
+			if srt.IsBool() {
+				z = False
+			} else {
+				z = BVInt(0, srt.W)
+			}
+			cb.st.heaps[key] = Store(h, reg, ConstArr(ArrSort(IdxSort, srt), z))
+		}
+		for i, ej := range elems {
+			var ev Value
+			var ok bool
+			if ty.IsStr {
+				ev, ok = cb.build(tyU8, ej, nil)
+			} else {
+				ev, ok = cb.build(e, ej, nil)
+			}
+			if !ok {
+				return nil, false
+			}
+			storeElem(cb.st, e, reg, BVInt(int64(i), 64), ev)
+		}
+		return VSlice{Reg: reg, Off: BVInt(0, 64), Len: BVInt(n, 64), Cap: BVInt(cp, 64), Ty: ty}, true
+	case TPtr:
+		m, ok := j.(map[string]interface{})
+		if !ok {
+			return nil, false
+		}
+		fs, _ := m["struct"].(map[string]interface{})
+		var ref *Term
+		if ro, ok := reuse.(PObj); ok {
+			ref = ro.Ref
+		} else {
+			ref = cb.newReg()
+		}
+		s := ty.Named.Underlying().(*types.Struct)
+		for i := 0; i < s.NumFields(); i++ {
+			ft := tyFromGo(s.Field(i).Type())
+			fj, ok := fs[s.Field(i).Name()]
+			if !ok {
+				continue
+			}
+			if ft.K == TArray || ft.K == TOpaque || ft.K == TStruct || ft.K == TIface {
+				continue
+			}
+			fv, ok := cb.build(ft, fj, nil)
+			if !ok {
+				return nil, false
+			}
+			// field heaps default to constant-zero arrays
+			for _, key := range fieldKeys(ty.Named, i) {
+				if _, ok := cb.st.heaps[key]; !ok {
+					srt := compSort(key, ft)
+					var z *Term
+					if srt.IsBool() {
+						z = False
+					} else {
+						z = BVInt(0, srt.W)
+					}
+					cb.st.heaps[key] = ConstArr(ArrSort(RegSort, srt), z)
+				}
+			}
+			storeField(cb.st, ty.Named, i, ref, fv)
+		}
+		return PObj{ref, ty}, true
+	}
+	return nil, false
+}
+
+type groundEval struct {
+	w      *World
+	dom    int64
+	budget int
+	memo   map[*Term]*Term
+}
+
+// eval folds a closed formula over concrete data: quantifiers are expanded over a finite
+// domain, spec function applications with constant arguments are unfolded.
+func (g *groundEval) eval(t *Term) *Term {
+	if t == True || t == False || t.IsConst() {
+		return t
+	}
+	if r, ok := g.memo[t]; ok {
+		return r
+	}
+	g.budget--
+	if g.budget < 0 {
+		return t
+	}
+	var r *Term
+	switch t.Op {
+	case "forall", "exists":
+		isAll := t.Op == "forall"
+		doms := make([][]*Term, len(t.Bound))
+		d := g.dom
+		if len(t.Bound) > 1 {
+			d = 24
+		}
+		for i, b := range t.Bound {
+			if b.S.IsBool() {
+				doms[i] = []*Term{True, False}
+				continue
+			}
+			if !b.S.IsBV() {
+				return t
+			}
+			for v := int64(-1); v <= d; v++ {
+				doms[i] = append(doms[i], BVInt(v, b.S.W))
+			}
+		}
+		idx := make([]int, len(doms))
+		res := BoolConst(isAll)
+		undet := false
+	loop:
+		for {
+			m := map[*Term]*Term{}
+			for i, b := range t.Bound {
+				m[b] = doms[i][idx[i]]
+			}
+			v := g.eval(Subst(t.Args[0], m))
+			switch {
+			case v == True && !isAll:
+				res = True
+				break loop
+			case v == False && isAll:
+				res = False
+				break loop
+			case v != True && v != False:
+				undet = true
+			}
+			j := len(idx) - 1
+			for j >= 0 {
+				idx[j]++
+				if idx[j] < len(doms[j]) {
+					break
+				}
+				idx[j] = 0
+				j--
+			}
+			if j < 0 {
+				break
+			}
+			if g.budget < 0 {
+				undet = true
+				break
+			}
+		}
+		if undet && res == BoolConst(isAll) {
+			r = t
+		} else {
+			r = res
+		}
+	case "app":
+		args := make([]*Term, len(t.Args))
+		for i, a := range t.Args {
+			args[i] = g.eval(a)
+		}
+		nt := App(t.Name, t.S, args...)
+		if strings.HasPrefix(t.Name, "sf.") {
+			name := strings.TrimPrefix(t.Name, "sf.")
+			if fn := g.w.SpecFns[name]; fn != nil && fn.Body != nil {
+				if eq, err := g.w.unfoldApp(nt); err == nil && eq.Op == "=" {
+					body := eq.Args[0]
+					if unmark(body) == nt {
+						body = eq.Args[1]
+					}
+					r = g.eval(body)
+					break
+				}
+			}
+		}
+		r = nt
+	case "ite":
+		c := g.eval(t.Args[0])
+		if c == True {
+			r = g.eval(t.Args[1])
+		} else if c == False {
+			r = g.eval(t.Args[2])
+		} else {
+			r = Ite(c, g.eval(t.Args[1]), g.eval(t.Args[2]))
+		}
+	case "and":
+		r = True
+		for _, a := range t.Args {
+			v := g.eval(a)
+			if v == False {
+				r = False
+				break
+			}
+			r = And(r, v)
+		}
+	case "or":
+		r = False
+		for _, a := range t.Args {
+			v := g.eval(a)
+			if v == True {
+				r = True
+				break
+			}
+			r = Or(r, v)
+		}
+	case "=>":
+		a := g.eval(t.Args[0])
+		if a == False {
+			r = True
+		} else {
+			r = Implies(a, g.eval(t.Args[1]))
+		}
+	default:
+		if len(t.Args) == 0 {
+			r = t
+			break
+		}
+		args := make([]*Term, len(t.Args))
+		ch := false
+		for i, a := range t.Args {
+			args[i] = g.eval(a)
+			if args[i] != a {
+				ch = true
+			}
+		}
+		if ch {
+			r = rebuild(t, args)
+		} else {
+			r = t
+		}
+	}
+	g.memo[t] = r
+	return r
+}
+
+func goTypeString(t types.Type, pkg *types.Package) string {
+	return types.TypeString(t, func(p *types.Package) string {
+		if p == pkg {
+			return ""
+		}
+		return p.Name()
+	})
+}
+
+// driverSource generates the replay driver of a package.
+func (w *World) driverSource(pkg *ssa.Package) string {
+	var rows []string
+	var keys []string
+	for k := range w.FuncSpecs {
+		keys = append(keys, k)
+	}
+	sort.Strings(keys)
+	for _, k := range keys {
+		fs := w.FuncSpecs[k]
+		if fs.External || fs.Pkg != pkg.Pkg.Path() || strings.Contains(fs.Name, "$") || strings.HasPrefix(fs.Name, "init") {
+			continue
+		}
+		fn := w.findFunc(fs.Pkg, fs.Name)
+		if fn == nil {
+			continue
+		}
+		expr := fs.Name
+		if k := strings.Index(fs.Name, "."); k >= 0 {
+			recvPtr := false
+			if fn.Signature.Recv() != nil {
+				_, recvPtr = fn.Signature.Recv().Type().(*types.Pointer)
+			}
+			if recvPtr {
+				expr = "(*" + fs.Name[:k] + ")." + fs.Name[k+1:]
+			} else {
+				expr = fs.Name[:k] + "." + fs.Name[k+1:]
+			}
+		}
+		gen := ""
+		var body []string
+		for _, c := range fs.Clauses {
+			if c.Kind != "witness-gen" {
+				continue
+			}
+			eq := strings.Index(c.Text, "=")
+			if eq < 0 {
+				continue
+			}
+			name := strings.TrimSpace(c.Text[:eq])
+			for i, p := range fn.Params {
+				if p.Name() == name {
+					body = append(body, fmt.Sprintf("%s = %s; a[%d] = reflect.ValueOf(%s)", name, strings.TrimSpace(c.Text[eq+1:]), i, name))
+				}
+			}
+		}
+		if len(body) > 0 {
+			var decl []string
+			for i, p := range fn.Params {
+				if p.Name() == "" || p.Name() == "_" {
+					continue
+				}
+				decl = append(decl, fmt.Sprintf("%s := a[%d].Interface().(%s); _ = %s", p.Name(), i, goTypeString(p.Type(), pkg.Pkg), p.Name()))
+			}
+			gen = ", Gen: func(a []reflect.Value, r *rand.Rand) { " + strings.Join(decl, "; ") + "; " + strings.Join(body, "; ") + " }"
+		}
+		rows = append(rows, fmt.Sprintf("\t%q: {F: %s%s},", fs.Name, expr, gen))
+	}
+	src := strings.Replace(driverTemplate, "PKGNAME", pkg.Pkg.Name(), 1)
+	return strings.Replace(src, "FUNCTABLE", strings.Join(rows, "\n"), 1)
+}
+
+// modelInputs turns the solver's model into concrete argument lists (when small enough).
+func modelInputs(fn *ssa.Function, model map[string]string, rnd *rand.Rand, variants int) []interface{} {
+	if len(model) == 0 {
+		return nil
+	}
+	parseBV := func(s string) (*big.Int, bool) {
+		s = strings.TrimSpace(s)
+		if strings.HasPrefix(s, "#x") {
+			v, ok := new(big.Int).SetString(s[2:], 16)
+			return v, ok
+		}
+		if strings.HasPrefix(s, "#b") {
+			v, ok := new(big.Int).SetString(s[2:], 2)
+			return v, ok
+		}
+		return nil, false
+	}
+	var out []interface{}
+	for v := 0; v < variants; v++ {
+		var args []interface{}
+		ok := true
+		for _, p := range fn.Params {
+			ty := tyFromGo(p.Type())
+			switch ty.K {
+			case TInt:
+				bv, ok2 := parseBV(model[p.Name()])
+				if !ok2 {
+					ok = false
+					break
+				}
+				if ty.Signed {
+					bv = toSigned(bv, ty.W)
+				}
+				args = append(args, bv.String())
+			case TBool:
+				args = append(args, strings.TrimSpace(model[p.Name()]) == "true")
+			case TSlice:
+				bv, ok2 := parseBV(model[p.Name()+".len"])
+				if !ok2 || !bv.IsInt64() || bv.Int64() > 64 {
+					ok = false
+					break
+				}
+				n := int(bv.Int64())
+				if ty.Elem.K != TInt {
+					ok = false
+					break
+				}
+				elems := make([]interface{}, n)
+				for i := range elems {
+					var x uint64
+					switch rnd.Intn(4) {
+					case 0:
+						x = 0
+					case 1:
+						x = ^uint64(0)
+					default:
+						x = rnd.Uint64()
+					}
+					if ty.Elem.W < 64 {
+						x &= (1 << uint(ty.Elem.W)) - 1
+					}
+					if ty.Elem.Signed {
+						elems[i] = toSigned(new(big.Int).SetUint64(x), ty.Elem.W).String()
+					} else {
+						elems[i] = new(big.Int).SetUint64(x).String()
+					}
+				}
+				if ty.IsStr {
+					args = append(args, map[string]interface{}{"str": elems})
+				} else {
+					args = append(args, map[string]interface{}{"slice": elems})
+				}
+			default:
+				ok = false
+			}
+			if !ok {
+				break
+			}
+		}
+		if ok {
+			out = append(out, args)
+		}
+	}
+	return out
+}
 
 func runWitnessSearch(prop string, o *Obligation, repo, verif string) map[string]interface{} {
-	return nil
+	w := theWorld
+	if w == nil || o.Lemma || strings.HasPrefix(o.Func, "lemma:") {
+		return nil
+	}
+	fs := w.FuncSpecs[o.Func]
+	if fs == nil {
+		return nil
+	}
+	return w.witnessFor(fs, o.Res.Model, repo, 4000, nil)
+}
+
+// witnessFor runs the real function and checks its contract on concrete records.
+func (w *World) witnessFor(fs *FuncSpec, model map[string]string, repo string, n int, fixedInputs []interface{}) (res map[string]interface{}) {
+	defer func() {
+		if r := recover(); r != nil {
+			res = map[string]interface{}{"confirmed": false, "error": fmt.Sprint(r)}
+		}
+	}()
+	fn := w.findFunc(fs.Pkg, fs.Name)
+	if fn == nil || fn.Pkg == nil || strings.Contains(fs.Name, "$") || strings.HasPrefix(fs.Name, "init") {
+		return nil
+	}
+	fi := w.funcInfo(fn)
+	dir, err := os.MkdirTemp("", "govc-replay")
+	if err != nil {
+		return nil
+	}
+	defer os.RemoveAll(dir)
+	rel := strings.TrimPrefix(strings.TrimPrefix(fs.Pkg, modPath), "/")
+	pkgDir := filepath.Join(repo, rel)
+	drv := filepath.Join(dir, "driver_test.go")
+	os.WriteFile(drv, []byte(w.driverSource(fn.Pkg)), 0644)
+	repl := map[string]string{filepath.Join(pkgDir, "zz_verif_replay_test.go"): drv}
+	for k, v := range overlayPaths {
+		repl[k] = v
+	}
+	ov := map[string]interface{}{"Replace": repl}
+	ovb, _ := json.Marshal(ov)
+	ovf := filepath.Join(dir, "ov.json")
+	os.WriteFile(ovf, ovb, 0644)
+	seed := int64(seedFromEnv())
+	rnd := rand.New(rand.NewSource(seed + 7))
+	fixed := append(fixedInputs, modelInputs(fn, model, rnd, 40)...)
+	inf := filepath.Join(dir, "inputs.json")
+	fb, _ := json.Marshal(fixed)
+	os.WriteFile(inf, fb, 0644)
+	outf := filepath.Join(dir, "out.jsonl")
+	cmd := exec.Command("go", "test", "-overlay", ovf, "-vet=off", "-timeout", "60s", "-count=1", "-run", "^TestVerifReplay$", ".")
+	cmd.Dir = pkgDir
+	cmd.Env = append(os.Environ(), "GOFLAGS=-mod=mod", "GOPROXY=off", "GOSUMDB=off", "GOTOOLCHAIN=local",
+		"VERIF_FUNC="+fs.Name, fmt.Sprintf("VERIF_N=%d", n), fmt.Sprintf("VERIF_SEED=%d", seed), "VERIF_OUT="+outf, "VERIF_INPUTS="+inf)
+	outb, err := cmd.CombinedOutput()
+	f, err2 := os.Open(outf)
+	if err2 != nil {
+		return map[string]interface{}{"confirmed": false, "error": "replay driver did not run: " + firstLines(string(outb), 6)}
+	}
+	defer f.Close()
+	_ = err
+	sc := bufio.NewScanner(f)
+	sc.Buffer(make([]byte, 1<<20), 1<<26)
+	tried, admissible := 0, 0
+	for sc.Scan() {
+		var rec map[string]interface{}
+		if json.Unmarshal(sc.Bytes(), &rec) != nil {
+			continue
+		}
+		tried++
+		viol, adm := w.checkRecord(fi, fs, rec)
+		if adm {
+			admissible++
+		}
+		if viol != "" {
+			return map[string]interface{}{
+				"confirmed": true, "function": fs.Pkg + "." + fs.Name, "inputs": rec["in"], "outputs": rec["out"], "panic": rec["panic"],
+				"post_state": rec["post"], "violated": viol, "records_tried": tried, "records_admissible": admissible,
+				"how": "real function executed through go test -overlay (reflect driver); contract evaluated on the concrete values",
+			}
+		}
+	}
+	return map[string]interface{}{"confirmed": false, "records_tried": tried, "records_admissible": admissible}
+}
+
+// checkRecord evaluates the contract on one concrete record. It returns a description of the
+// violated clause ("" if none) and whether the record satisfied the precondition.
+func (w *World) checkRecord(fi *FuncInfo, fs *FuncSpec, rec map[string]interface{}) (viol string, admissible bool) {
+	defer func() {
+		if r := recover(); r != nil {
+			viol, admissible = "", false
+		}
+	}()
+	fn := fi.Fn
+	ins, _ := rec["in"].([]interface{})
+	posts, _ := rec["post"].([]interface{})
+	if len(ins) != len(fn.Params) {
+		return "", false
+	}
+	mk := func() *State {
+		return &State{cells: map[*ssa.Alloc]Value{}, regs: map[ssa.Value]Value{}, heaps: map[string]*Term{}, globals: map[*ssa.Global]Value{}}
+	}
+	old := mk()
+	cb := &concreteBuilder{st: old}
+	var args []Value
+	for i, p := range fn.Params {
+		v, ok := cb.build(tyFromGo(p.Type()), ins[i], nil)
+		if !ok {
+			return "", false
+		}
+		args = append(args, v)
+	}
+	old.alloc = BVInt(cb.nextReg+1, 32)
+	x := &Exec{W: w, top: fi, entry: old, alloc0: old.alloc, counters: map[string]int{}, hints: &Hints{Reveal: map[string]bool{}}}
+	w.initPhase = true // concrete tables are not needed; invariants are not assumed
+	ge := &groundEval{w: w, dom: 330, budget: 400000, memo: map[*Term]*Term{}}
+	pre := x.funcEnv(fi, "pre", old, nil, args, nil)
+	for _, c := range fs.Clauses {
+		if c.Kind != "requires" {
+			continue
+		}
+		t, err := pre.EvalBool(c.E)
+		if err != nil {
+			return "", false
+		}
+		if ge.eval(t) != True {
+			return "", false
+		}
+	}
+	admissible = true
+	if p, ok := rec["panic"]; ok && p != nil {
+		return fmt.Sprintf("the call panics: %v", p), true
+	}
+	// post state
+	cur := mk()
+	for k, v := range old.heaps {
+		cur.heaps[k] = v
+	}
+	cb2 := &concreteBuilder{st: cur, nextReg: cb.nextReg + 1}
+	cur.alloc = old.alloc
+	frameOK := true
+	for i, p := range fn.Params {
+		if i < len(posts) {
+			if _, ok := cb2.build(tyFromGo(p.Type()), posts[i], args[i]); !ok {
+				return "", true
+			}
+			a, _ := json.Marshal(stripCap(ins[i]))
+			b, _ := json.Marshal(stripCap(posts[i]))
+			if string(a) != string(b) {
+				frameOK = false
+			}
+		}
+	}
+	assignsNothing := false
+	for _, c := range fs.Clauses {
+		if c.Kind == "assigns" && strings.TrimSpace(c.Text) == "nothing" {
+			assignsNothing = true
+		}
+	}
+	if assignsNothing && !frameOK {
+		return "assigns nothing: an argument was modified by the call", true
+	}
+	outs, _ := rec["out"].([]interface{})
+	var results []Value
+	res := fn.Signature.Results()
+	for j := 0; j < res.Len() && j < len(outs); j++ {
+		v, ok := cb2.build(tyFromGo(res.At(j).Type()), outs[j], nil)
+		if !ok {
+			return "", true
+		}
+		results = append(results, v)
+	}
+	post := x.funcEnv(fi, "post", cur, old, args, results)
+	n := 0
+	for _, c := range fs.Clauses {
+		if c.Kind != "ensures" {
+			continue
+		}
+		n++
+		t, err := post.EvalBool(c.E)
+		if err != nil {
+			continue
+		}
+		if ge.eval(t) == False {
+			return fmt.Sprintf("ensures#%d: %s", n, c.Text), true
+		}
+	}
+	return "", true
+}
+
+// overlayPaths: source replacements given with -overlay (self-tests); the replay must run the
+// same source the obligations were generated from.
+var overlayPaths = map[string]string{}
+
+func stripCap(j interface{}) interface{} {
+	switch x := j.(type) {
+	case map[string]interface{}:
+		m := map[string]interface{}{}
+		for k, v := range x {
+			if k == "cap" {
+				continue
+			}
+			m[k] = stripCap(v)
+		}
+		return m
+	case []interface{}:
+		out := make([]interface{}, len(x))
+		for i := range x {
+			out[i] = stripCap(x[i])
+		}
+		return out
+	}
+	return j
 }
